@@ -1,4 +1,5 @@
 import CJ.Lemmas.PhantomCompat
+import CJ.Gen.C14Facts
 /-!
 # C14 — phantom selection is a pure function that stays inside the configured subnets
 
@@ -103,6 +104,78 @@ theorem select_repeatable (R : Rng) (g : R.G) (h : Hk) (cfg : Cfg) (seed : Bytes
     select R ((stationSelect h cfg seed gen ver v6).run R g).2 h cfg seed gen ver v6 =
       select R g h cfg seed gen ver v6 :=
   select_pure ..
+
+/-! ### the client entry point `SelectPhantom` -/
+
+/-- **Station = client entry** (library versions ≥ 2): on a known generation `Select` returns exactly
+what `phantoms.SelectPhantom` returns on that generation's subnet list — address *and*
+port-randomisation flag, errors included. -/
+theorem client_flag_eq_station (R : Rng) (g : R.G) (h : Hk) (cfg : Cfg) (gc : GenCfg) (seed : Bytes)
+    (gen ver : Nat) (v6 : Bool) (hv : hkdfMinVersion ≤ ver) (hg : cfg.lookup gen = some gc) :
+    select R g h cfg seed gen ver v6 = clientSelect h gc seed v6 := by
+  unfold select
+  rw [stationSelect_eq_client seed v6 hg hv]
+  rfl
+
+/-- a generator without state (the client entry point never touches math/rand) -/
+def unitRng : Rng where
+  G := Unit
+  seed := fun _ => ()
+  intn := fun _ _ => (0, ())
+  read := fun _ n => (List.replicate n 0, ())
+
+/-- **Containment for the client entry point**: what `SelectPhantom(seed, list, V4Only | V6Only)`
+returns is a well-formed address of the requested family inside a subnet written in some set of the
+list, and it grants port randomisation only if that set allows it. -/
+theorem client_contained (h : Hk) (gc : GenCfg) (seed : Bytes) (v6 : Bool) (a : Addr)
+    (hok : clientSelect h gc seed v6 = .ok a) :
+    a.bytes.length = (if v6 then 16 else 4) ∧
+    ∃ grp ∈ gc.groups, ∃ r : RawNet, some r ∈ grp.nets ∧ r.v4 = (!v6) ∧
+      r.base ≤ beNat a.bytes ∧ beNat a.bytes < r.base + 2 ^ (r.bits - r.ones) ∧
+      (a.randPort = true → grp.randPort = true) := by
+  have hg : (⟨[(0, some gc)]⟩ : Cfg).lookup 0 = some gc := rfl
+  have hs : select unitRng () h ⟨[(0, some gc)]⟩ seed 0 hkdfMinVersion v6 = .ok a := by
+    rw [client_flag_eq_station unitRng () h _ gc seed 0 hkdfMinVersion v6 (Nat.le_refl _) hg]; exact hok
+  obtain ⟨hl, gc', hgc', rest⟩ := select_contained unitRng () h _ seed 0 hkdfMinVersion v6 a hs
+  rw [hg] at hgc'
+  cases hgc'
+  exact ⟨hl, rest⟩
+
+/-! ### family: Go's view of a 16-byte address -/
+
+/-- the 16-byte addresses that Go (and every dual-stack socket API) treats as IPv4: `::ffff:0:0/96` -/
+def mappedLo : Nat := 0xffff00000000
+def mappedHi : Nat := 0x1000000000000
+
+/-- **An IPv6 request yields an IPv6 address in Go's sense too**, unless the operator configured an
+IPv6 subnet that reaches into `::ffff:0:0/96`: if no IPv6 subnet of the generation intersects that
+range, the selected address is outside it (`net.IP.To4()` is nil). -/
+theorem select_v6_not_mapped (R : Rng) (g : R.G) (h : Hk) (cfg : Cfg) (gc : GenCfg) (seed : Bytes)
+    (gen ver : Nat) (a : Addr) (hg : cfg.lookup gen = some gc)
+    (hcfg : ∀ grp ∈ gc.groups, ∀ r : RawNet, some r ∈ grp.nets → r.v4 = false →
+      r.base + 2 ^ (r.bits - r.ones) ≤ mappedLo ∨ mappedHi ≤ r.base)
+    (hok : select R g h cfg seed gen ver true = .ok a) :
+    beNat a.bytes < mappedLo ∨ mappedHi ≤ beNat a.bytes := by
+  obtain ⟨_, gc', hgc', grp, hgrp, r, hr, hfam, hlo, hhi, _⟩ := select_contained R g h cfg seed gen ver true a hok
+  rw [hg] at hgc'
+  cases hgc'
+  rcases hcfg grp hgrp r hr (by simpa using hfam) with h1 | h1
+  · left; omega
+  · right; omega
+
+/-! ### facts read off the code on this run (`CJ/Gen/C14Facts.lean`) -/
+
+/-- the version thresholds of the model are the ones in `pkg/core` -/
+theorem thresholds_pinned :
+    CJ.Gen.C14.phantomSelectionMinGeneration = selectionMinGeneration ∧
+    CJ.Gen.C14.phantomHkdfMinVersion = hkdfMinVersion := by decide
+
+/-- **Every selector owns its generator** — the hypothesis under which `concurrent_select_pure` and
+`concurrent_results_fixed` describe the code (`Conc.execLocal`: the generator is part of the thread)
+— is a fact about the source: outside `init()`, no non-test file of `pkg/phantoms` mentions a
+package-level `math/rand` function or calls `weightedrand.Chooser.Pick()`, the two ways to reach the
+process-global source that `shared_source_interleaves` shows to be schedule dependent. -/
+theorem no_global_rand : CJ.Gen.C14.globalRandCalls = [] ∧ 4 ≤ CJ.Gen.C14.sourceFiles := by decide
 
 /-! ### concurrent selectors -/
 
